@@ -205,6 +205,7 @@ func VerifC34_conn() {
 	}
 	sc.maxStreamID = uint32(2*ns - 1)
 	dead := false
+	lateData := false
 
 	pump := func() {
 		for i := 0; i < 12; i++ {
@@ -234,6 +235,9 @@ func VerifC34_conn() {
 			s = vrt.Choose("stream", ns)
 		}
 		st := sts[s]
+		// DATA of a handler racing with the client's RST_STREAM is scheduled (and charged to the windows)
+		// before startFrameWrite skips it: the server's view of the connection window falls below the client's
+		vrt.Known("C34-skipped-frame-of-reset-stream-charged-to-windows", lateData)
 		switch vrt.Choose("event", vrt.Param("EVENTS", 5)) {
 		case 0: // the handler of stream s produced a frame
 			if ended[s] || g.nfr[s] >= maxQueuedC34 {
@@ -246,6 +250,9 @@ func VerifC34_conn() {
 			if reset[s] {
 				// the stream is gone; the frame of the racing handler must be dropped, not sent
 				g.nfr[s]--
+				if wd, ok := wm.write.(*writeData); ok && len(wd.p) > 0 {
+					lateData = true
+				}
 			}
 			sc.writeFrame(wm)
 		case 1: // WINDOW_UPDATE
